@@ -82,7 +82,7 @@ impl Monitor for C08 {
 		"C08"
 	}
 	fn rule(&self) -> String {
-		"(a) unknown events: small well-formed replays of every regime (and, in thorough, heads of fixtures); for EVERY event boundary after Game Start up to the one before the (first) Game End (including inside message-splitter runs and between a frame's events) 1-3 events with codes drawn from all 246 codes the library does not know and sizes from {1, 2, 7, 516, 4096, 65535} are declared in the payload table and inserted (multiplicity 1-3); additionally a run that inserts an unknown event at every boundary at once. Oracle (differential on the real reader + model): the game read (start, end, metadata, gecko, quirks, every column, validity and item offset) is identical to the game read from the original, via slippi::read and via the incremental API. (b) newer versions: versions {3.17, 3.255, 4.0, 10.0, 255.255} with 1..8 or 100 extra trailing bytes appended independently to each known event kind (and to Game Start / Game End): must parse, every known frame field must equal the spec-offset value of the (longer) payload, and start/end must equal those of the same file without the extra bytes. One evaluation = one modified file read. distinct = (regime, boundary kind, size class) and (version, kind with extras) classes.".into()
+		"(a) unknown events: small well-formed replays of every regime (and, in thorough, heads of fixtures); for EVERY event boundary after Game Start up to the one before the (first) Game End (including inside message-splitter runs and between a frame's events) 1-3 events with codes drawn from all 246 codes the library does not know and sizes from {1, 2, 7, 516, 4096, 65535} are declared in the payload table and inserted (multiplicity 1-3); additionally a run that inserts an unknown event at every boundary at once. Oracle (differential on the real reader + model): the game read (start, end, metadata, gecko, quirks, every column, validity and item offset) is identical to the game read from the original, via slippi::read and via the incremental API. (b) newer versions: versions {3.17, 3.255, 4.0, 10.0, 255.255} with 1..8 or 100 extra trailing bytes appended independently to each known event kind (and to Game Start / Game End): must parse (also with skip_frames and compute_hash), every known frame field must equal the spec-offset value of the (longer) payload, and start/end must equal those of the same file without the extra bytes. One evaluation = one modified file read. distinct = (regime, boundary kind, size class) and (version, kind with extras) classes.".into()
 	}
 	fn n_cases(&self, ctx: &Ctx) -> usize {
 		// (a) seeds x rounds, (b) version cases
@@ -267,6 +267,18 @@ impl Monitor for C08 {
 		let d = view::diff_expected(&exp, &view::cols_imm(&g.frames), "columns", 3);
 		for msg in d.fields.iter().chain(d.structure.iter()).take(3) {
 			out.violate(format!("newer-version-field;{}", super::c03::sig_of(msg)), format!("{}: {}", desc, msg), Some(&built.bytes));
+		}
+		// the other reader options must cope with the longer payloads as well
+		for (skip, hash) in [(true, false), (true, true), (false, true)] {
+			out.evals += 1;
+			match common::slp_read(&built.bytes, skip, hash) {
+				Ok(g3) => {
+					if !common::same_start(&g3.start, &g.start) || g3.end != g.end || g3.metadata != g.metadata {
+						out.violate(format!("newer-version-options-differ;skip={};hash={}", skip, hash), format!("{}: start/end/metadata differ when read with skip_frames={} compute_hash={}", desc, skip, hash), Some(&built.bytes));
+					}
+				}
+				Err(f) => out.violate(format!("newer-version-rejected;skip={};hash={};{}", skip, hash, f.sig()), format!("{}: read with skip_frames={} compute_hash={} failed: {}", desc, skip, hash, f.text()), Some(&built.bytes)),
+			}
 		}
 		// start / end as if the extra bytes were absent
 		let mut s2 = s.clone();
